@@ -881,7 +881,7 @@ PTRef ArithLogic::mkConst(SRef s, char const * name) {
             stringToRational(rat, name);
         else {
             if (not isIntString(name)) throw ApiException("Not parseable as an integer");
-            rat = strdup(name);
+            stringToRational(rat, name); // canonical form: "01" and "-0" must be the constants 1 and 0
         }
         ptr = mkVar(s, rat, true);
         // Store the value of the number as a real
